@@ -544,6 +544,46 @@ func (x *Exec) specCallExpr(env *SpecEnv, e *SExpr) Value {
 				x.specFail("aset: no pointer field v")
 			}
 			return BoolV{And(Ne(p.Addr, IntLit(0)), Select(env.st.heapArr("atomicValue#set", SBool), p.Addr))}
+		case "resphdr":
+			return x.respHeaderMap(env.st, x.specEval(env, e.Args[0]))
+		case "respbody":
+			return IntV{Select(env.st.ghostArr("respbody", SInt), x.asTermAny(x.specEval(env, e.Args[0])))}
+		case "sectionreader":
+			return IntV{App("sectionreader", SInt, x.identityOf(env.st, x.specEval(env, e.Args[0])), x.asTerm(x.specEval(env, e.Args[1])), x.asTerm(x.specEval(env, e.Args[2])))}
+		case "ident":
+			return IntV{x.identityOf(env.st, x.specEval(env, e.Args[0]))}
+		case "fmtid":
+			// identity of fmt.Sprintf(format, args...) as assumed by the fmt model
+			f, ok := strLitOf(x.specEval(env, e.Args[0]).(StrV))
+			if !ok {
+				x.specFail("fmtid needs a literal format")
+			}
+			var ids []*Term
+			for _, a := range e.Args[1:] {
+				ids = append(ids, x.identityOf(env.st, x.specEval(env, a)))
+			}
+			return IntV{App("sprintf_"+sanitize(f)+fmt.Sprintf("_%d", len(ids)), SInt, ids...)}
+		case "timefmt":
+			return IntV{App("timefmt", SInt, mk("div", SInt, x.asTerm(x.specEval(env, e.Args[0])), IntLit(1_000_000_000)))}
+		case "cfgval":
+			// cfgval(prop): the effective value of a ConfigProp (override if any, else the committed base)
+			pv, ok := x.specEval(env, e.Args[0]).(StructV)
+			if !ok {
+				x.specFail("cfgval expects a ConfigProp")
+			}
+			av, ok := pv.F["value"].(StructV)
+			if !ok {
+				x.specFail("cfgval: no atomics.Value field")
+			}
+			named, ok := types.Unalias(av.Type).(*types.Named)
+			if !ok || named.TypeArgs() == nil {
+				x.specFail("cfgval: not instantiated")
+			}
+			p, _ := av.F["v"].(PtrV)
+			cell := x.atomicLoad(env.st, p.Addr, x.resolveType(named.TypeArgs().At(0))).(StructV)
+			ow := cell.F["comittedValue"].(StructV)
+			opt := ow.F["overwritten"].(StructV)
+			return x.iteVal(opt.F["some"].(BoolV).T, opt.F["value"], ow.F["value"])
 		case "aload":
 			// aload(a): current content of an atomics.Value[X] (field v *atomic.Value)
 			av, ok := x.specEval(env, e.Args[0]).(StructV)
